@@ -241,9 +241,9 @@ class TlcResult:
         self.out = out
         self.rc = rc
         self.wall = wall
-        m = re.search(r"(\d+) states generated, (\d+) distinct states found", out)
-        self.generated = int(m.group(1)) if m else 0
-        self.distinct = int(m.group(2)) if m else 0
+        ms = re.findall(r"(\d+) states generated, (\d+) distinct states found", out)     # the last one is the summary
+        self.generated = int(ms[-1][0]) if ms else 0
+        self.distinct = int(ms[-1][1]) if ms else 0
         m = re.search(r"The depth of the complete state graph search is (\d+)", out)
         self.depth = int(m.group(1)) if m else 0
         self.ok = (rc == 0 and "Error:" not in out)
